@@ -1,7 +1,7 @@
 (* FmtMACHO/Run.v — evaluation of the models and the specification readers on harness cases.
    Hash functions are supplied by the harness as a table [(hash id, preimage, digest)] (the OCaml side has no SHA); a preimage
    that is not in the table hashes to a digest of 0xEE bytes, which never equals a real digest. *)
-From Relic Require Import Base.Prelude Base.Enc Base.Val Generated.FmtMACHO_gen FmtMACHO.Model FmtMACHO.ModelM.
+From Relic Require Import Base.Prelude Base.Enc Base.Val FmtMACHO.VpLang Generated.FmtMACHO_gen FmtMACHO.Model FmtMACHO.ModelM.
 
 Definition st_of {A} (r : result A) : Z := match r with Ok _ => 0 | Err e => e | Panic e => 100 + e end.
 Definition vopt (o : option bytes) : val := match o with Some b => VL [VZ 1; VB b] | None => VL [VZ 0; VB []] end.
@@ -138,7 +138,23 @@ Definition run_embed (v : val) : val :=
                 VL [VZ (st_of e); match e with Ok o => vopt o | _ => vopt None end]; vpayload g; vpayload f]
   | _ => VL [VZ (st_of r); VB []; VL [VZ (st_of hi); VB []]; VL [VZ (-1); vopt None]; VL [VZ 1]; vpayload f]
   end.
-(* [11 sig_len sig_size ...] patch_signature on explicit markers is covered through run_plan *)
+(* [11 blob vparams table oracle rd input_len] -> like run_verify, but VerifyPages runs on the explicit reader content rd (dmg: the section up to the
+   end of the property list; harness cases with a reader that is longer / shorter than the code size) *)
+Definition run_verify_rd (v : val) : val :=
+  let H := tbl_hash (vtbl (vnth 3 v)) in
+  let r := cs_verify H (cms_oracle H (vnth 4 v)) (vb (vnth 1 v)) (tvp (vnth 2 v)) in
+  match r with
+  | Ok s => VL [VZ 0; VZ (st_of (verify_pages_rd H s (vz (vnth 6 v)) (vb (vnth 5 v)))); VZ (code_size s); VZ (zlen (sg_dirs s));
+                VZ (match best_dir (sg_dirs s) None with Some d => d_itype d | None => -1 end)]
+  | _ => VL [VZ (st_of r); VZ (-1); VZ 0; VZ 0; VZ (-1)]
+  end.
+(* [12 none log2 slots hfun limit64 limit32 rd table input_len] -> [status of the generated VerifyPages program, CodeSize()] on explicit header values:
+   the generated CodeSize (cs_code_size_of) feeds the generated program (vp_prog) *)
+Definition run_vp (v : val) : val :=
+  let H := tbl_hash (vtbl (vnth 8 v)) in
+  let cs := cs_code_size_of (vbool (vnth 1 v)) (vz (vnth 5 v)) (vz (vnth 6 v)) in
+  let c := mkVin (vbool (vnth 1 v)) (vz (vnth 2 v)) (map vb (vl (vnth 3 v))) (vz (vnth 4 v)) cs (alloc_limit (vz (vnth 9 v))) in
+  VL [VZ (st_of (vp_exec H c vp_prog (vb (vnth 7 v)))); VZ cs].
 
 Definition run (v : val) : val :=
   let k := vz (vnth 0 v) in
@@ -152,4 +168,6 @@ Definition run (v : val) : val :=
   else if k =? 7 then run_scan v
   else if k =? 8 then run_plan v
   else if k =? 9 then run_new_item v
+  else if k =? 11 then run_verify_rd v
+  else if k =? 12 then run_vp v
   else run_embed v.
